@@ -238,7 +238,7 @@ func (t *FSTree) readHeader(id oid.ID, f *os.File, buf []byte) ([]byte, io.ReadS
 			}
 
 			rsc := io.ReadSeekCloser(f)
-			if buffered := uint32(size - offset); l > buffered {
+			if buffered := uint32(size - offset); l >= buffered {
 				rsc = &limitedFileReader{
 					ReadSeekCloser: f,
 					limit:          int64(l - buffered),
